@@ -21,6 +21,67 @@ import (
 const grpAbsParams = " {G : Type} (add : G → G → G) (dbl : G → G) (neg : G → G) (zero : G) (uninit : G)"
 const grpAbsArgs = " add dbl neg zero uninit"
 
+const grpExtParams = " {G : Type} {A : Type} (add : G → G → G) (dbl : G → G) (neg : G → G) (zero : G) (uninit : G) (fromAffine : A → G) (phi : G → G) (split : Int → Int × Int) (limbs : Int) (frBits : Int → List Nat) (elBitLen : List Nat → Int)"
+const grpExtArgs = " add dbl neg zero uninit fromAffine phi split limbs frBits elBitLen"
+
+var grpExtReserved = func() map[string]bool {
+	m := map[string]bool{"A": true, "fromAffine": true, "phi": true, "split": true, "limbs": true, "frBits": true, "elBitLen": true}
+	for k := range grpReserved {
+		m[k] = true
+	}
+	return m
+}()
+
+// renameShadowing gives a fresh name to every local variable whose name is also the name of another variable of the function
+// (receiver, parameter, local): all identifiers that Go's resolver binds to the same object are renamed together, so the binding
+// structure is unchanged and no Lean `let` can capture a different variable.
+func renameShadowing(fd *ast.FuncDecl) {
+	var objs []*ast.Object
+	seen := map[*ast.Object]bool{}
+	ast.Inspect(fd, func(n ast.Node) bool {
+		if id, ok := n.(*ast.Ident); ok && id.Obj != nil && id.Obj.Kind == ast.Var && !seen[id.Obj] {
+			if d, ok := id.Obj.Decl.(ast.Node); ok && d.Pos() >= fd.Pos() && d.End() <= fd.End() {
+				seen[id.Obj] = true
+				objs = append(objs, id.Obj)
+			}
+		}
+		return true
+	})
+	names := map[string]int{}
+	taken := map[string]bool{}
+	for _, o := range objs {
+		taken[o.Name] = true
+	}
+	ren := map[*ast.Object]string{}
+	for _, o := range objs { // in order of first occurrence = declaration order
+		if o.Name == "_" {
+			continue
+		}
+		names[o.Name]++
+		if names[o.Name] > 1 {
+			k := names[o.Name] - 1
+			nn := o.Name + "_" + fmtInt(k)
+			for taken[nn] {
+				k++
+				nn = o.Name + "_" + fmtInt(k)
+			}
+			taken[nn] = true
+			ren[o] = nn
+		}
+	}
+	if len(ren) == 0 {
+		return
+	}
+	ast.Inspect(fd, func(n ast.Node) bool {
+		if id, ok := n.(*ast.Ident); ok && id.Obj != nil {
+			if nn, ok := ren[id.Obj]; ok {
+				id.Name = nn
+			}
+		}
+		return true
+	})
+}
+
 var grpReserved = map[string]bool{"add": true, "dbl": true, "neg": true, "zero": true, "uninit": true, "G": true, "arrGet": true, "arrSet": true,
 	"shrByte": true, "shr64": true, "bigBytes": true, "bigWords": true}
 
@@ -181,6 +242,14 @@ func (f *impFn) grpStmt(call *ast.CallExpr, c *ictx) ([]string, bool) {
 			val = "add " + parenImp(f.grpArg(args[0], c)) + " " + parenImp(f.grpArg(args[1], c))
 		case m == "setInfinity" && len(args) == 0:
 			val = "zero"
+		case m == "phi" && len(args) == 1 && p.tg.ext:
+			val = "phi " + parenImp(f.grpArg(args[0], c))
+		case m == "FromAffine" && len(args) == 1 && p.tg.ext:
+			id, ok := args[0].(*ast.Ident)
+			if !ok || f.lookup(id.Name) == nil || f.lookup(id.Name).k != "aff" {
+				p.die(cl, "FromAffine argument (only an affine pointer parameter)")
+			}
+			val = "fromAffine " + lname(id.Name)
 		default:
 			if sig := p.grpTranslated[m]; sig != nil && i == len(chain)-1 && len(chain) == 1 {
 				// a method of the point type translated before (same target): by value, the new receiver is its result
@@ -330,6 +399,7 @@ var _ = strings.Join
 // a family: the same functions of the same point type in many packages (generated from one template); every member is translated to
 // its own file Imp/<name>_<member>.lean and Imp/<name>All.lean proves every member equal to the first one (by unfolding, loop by loop)
 type grpFamily struct {
+	ext     bool
 	name    string
 	funcs   []string
 	members []grpMember
@@ -337,6 +407,7 @@ type grpFamily struct {
 
 type grpMember struct {
 	tag, dir, file, grp, inf string
+	aff                      string
 	funcs                    []string // nil: the family's
 }
 
@@ -384,16 +455,39 @@ func wMembers() []grpMember {
 	return ms
 }
 
+func jointMembers() []grpMember {
+	var ms []grpMember
+	for _, m := range wMembers() {
+		if m.grp == "G1Jac" && m.dir != "ecc/stark-curve" { // stark-curve's takes Jacobian points (another signature); G2 has none
+			m.aff = "G1Affine"
+			ms = append(ms, m)
+		}
+	}
+	return ms
+}
+
+func glvMembers() []grpMember {
+	var ms []grpMember
+	for _, m := range wMembers() {
+		if m.dir != "ecc/stark-curve" {
+			ms = append(ms, m)
+		}
+	}
+	return ms
+}
+
 var grpFamilies = []grpFamily{
 	{name: "MulW", funcs: []string{"mulWindowed"}, members: wMembers()},
 	{name: "TEMul", funcs: []string{"scalarMulWindowed", "ScalarMultiplication"}, members: teMembers()},
+	{name: "Joint", funcs: []string{"JointScalarMultiplication"}, members: jointMembers(), ext: true},
+	{name: "Glv", funcs: []string{"mulGLV"}, members: glvMembers(), ext: true},
 }
 
 func (fam grpFamily) targets() []impTarget {
 	var ts []impTarget
 	for _, m := range fam.members {
 		ns := fam.name + "_" + m.tag
-		ts = append(ts, impTarget{dir: m.dir, file: m.file, ns: ns, out: "Imp/" + ns + ".lean", funcs: fam.funcsOf(m), grp: m.grp, inf: m.inf})
+		ts = append(ts, impTarget{dir: m.dir, file: m.file, ns: ns, out: "Imp/" + ns + ".lean", funcs: fam.funcsOf(m), grp: m.grp, inf: m.inf, ext: fam.ext, aff: m.aff})
 	}
 	return ts
 }
@@ -419,6 +513,9 @@ func (fam grpFamily) allFile(infos map[string][]impLoopInfo) string {
 			}
 			ln := m.tag + "_" + strings.ReplaceAll(li.name, ".", "_") + "_same"
 			binders := "G add dbl neg zero uninit " + strings.Join(li.ro, " ")
+			if fam.ext {
+				binders = "G A add dbl neg zero uninit fromAffine phi split limbs frBits elBitLen " + strings.Join(li.ro, " ")
+			}
 			unf := ns + "." + li.name + ", " + first + "." + li.name + ", ih"
 			if len(lemmas) > 0 {
 				unf += ", " + strings.Join(lemmas, ", ")
@@ -435,8 +532,13 @@ func (fam grpFamily) allFile(infos map[string][]impLoopInfo) string {
 		}
 		for _, fn := range fam.funcsOf(m) {
 			ln := m.tag + "_" + fn + "_same"
-			b.WriteString("theorem " + ln + " : @" + ns + "." + fn + " = @" + first + "." + fn + " := by\n  unfold " + ns + "." + fn + " " + first + "." + fn +
-				"\n  simp only [" + strings.Join(lemmas, ", ") + "]\n")
+			// the loop constants are replaced without unfolding any `let` (a long chain of table updates would blow up under zeta);
+			// identical texts then close by rfl; a different statement order (stark-curve) is settled by simp afterwards
+			b.WriteString("theorem " + ln + " : @" + ns + "." + fn + " = @" + first + "." + fn + " := by\n  unfold " + ns + "." + fn + " " + first + "." + fn + "\n")
+			for i := len(lemmas) - 1; i >= 0; i-- {
+				b.WriteString("  try rw [" + lemmas[i] + "]\n")
+			}
+			b.WriteString("  all_goals simp only [" + strings.Join(lemmas, ", ") + "]\n")
 			lemmas = append(lemmas, ln)
 		}
 		b.WriteString("\n")
